@@ -107,7 +107,7 @@ def transform_tree(repo, native=False):
         base = os.path.basename(owner)
         # non-mod-rs files resolve #[path] relative to their own directory
         out[os.path.join(odir, mod + '.rs')] = src
-        texts[owner] += '\n#[cfg(kani)]\n#[path = "%s.rs"]\nmod %s;\n' % (mod, mod)
+        texts[owner] += '\n#[cfg(kani)]\n#[path = "%s.rs"]\npub(crate) mod %s;\n' % (mod, mod)
     # stub routing prologues
     for r in load_routes():
         rel = r['file']
